@@ -1184,6 +1184,187 @@ def drain_work(job):
     return acc.result()
 
 
+# ---------------------------------------------------------------------------
+# LONG histories on one queue: fill, then re-add / remove+add the same one or
+# two entries N times (stale entries pile up and outnumber the live ones - the
+# situation in which an implementation might compact or rebuild its heap),
+# then drain.  N runs over the thresholds a maintainer might pick.
+# ---------------------------------------------------------------------------
+
+CHURN_N = [1, 2, 10, 49, 50, 51, 52, 60, 100, 101, 128, 200]
+CHURN_TARGETS = ['first', 'last', 'min', 'first+last']
+CHURN_MOVES = ['later', 'earlier', 'equal', 'same']
+
+
+def churn_perms():
+    """Insertion orders of the priorities: every permutation of 0..k-1 for
+    k = 3..6, plus the distinct orders of {0,1,1,2} (a tie)."""
+    import itertools
+    out = []
+    for k in (3, 4, 5, 6):
+        out += [list(p) for p in itertools.permutations(range(k))]
+    out += sorted({p for p in itertools.permutations((0, 1, 1, 2))})
+    return [list(p) for p in out]
+
+
+def churn_check(case):
+    """case: {'prios': [...], 'target': name, 'style': 'readd'|'rmadd',
+    'move': name, 'n': N} -> (disagreements, last observation)"""
+    from sc3.base._taskq import TaskQueue
+    q = TaskQueue()
+    ref = RefQueue()
+    prios = case['prios']
+    k = len(prios)
+    tasks = [f't{i}' for i in range(k)]
+    dis = []
+    last = [None]
+
+    def compare(after):
+        o = _observe(q)
+        last[0] = o
+        e = {'peek': ref.peek(), 'peek_largest': ref.peek(False),
+             'empty': ref.empty(), 'list': ref.listing()}
+        for key in ('peek', 'peek_largest', 'empty', 'list'):
+            if o[key] != e[key]:
+                dis.append((f'taskq-churn-{key}', e[key], o[key],
+                            f'after {after}; reference contents '
+                            f'{ref.sorted()}'))
+
+    for p, t in zip(prios, tasks):
+        q.add(p, t)
+        ref.add(p, t)
+    compare('the fill')
+    tg = {'first': [0], 'last': [k - 1], 'min': [prios.index(min(prios))],
+          'first+last': [0, k - 1]}[case['target']]
+    for i in range(case['n']):
+        if dis:
+            break
+        j = tg[i % len(tg)]
+        newp = {'later': k + (i % 2), 'earlier': -1 - (i % 2),
+                'equal': prios[(j + 1) % k], 'same': prios[j]}[case['move']]
+        if case['style'] == 'rmadd':
+            q.remove(tasks[j])
+            ref.remove(tasks[j])
+        q.add(newp, tasks[j])
+        ref.add(newp, tasks[j])
+        if (i + 1) in CHURN_N or i + 1 == case['n']:
+            compare(f'{i + 1} re-insertions')
+    for n in range(k + 1):
+        if dis:
+            break
+        exp = ref.pop()
+        try:
+            r = q.pop()
+            obs = [r[0], r[1]]
+        except KeyError:
+            obs = 'KeyError'
+        except Exception as e:
+            obs = type(e).__name__
+        if obs != exp:
+            dis.append(('taskq-churn-pop', exp, obs,
+                        f'pop number {n + 1} of the drain'))
+        compare(f'pop number {n + 1} of the drain')
+    return dis, last[0]
+
+
+def churn_work(job):
+    from mc.engines import progenum
+    acc = progenum.Acc(max_samples=2)
+    i = -1
+    for pi, prios in enumerate(churn_perms()):
+        if len(prios) >= 5 and job.get('slice_of') and \
+                pi % job['slice_of'] != job['slice_ix']:
+            continue
+        for target in CHURN_TARGETS:
+            for style in ('readd', 'rmadd'):
+                for move in CHURN_MOVES:
+                    for n in CHURN_N:
+                        i += 1
+                        if i % job['of'] != job['shard']:
+                            continue
+                        case0 = {'prios': prios, 'target': target,
+                                 'style': style, 'move': move, 'n': n}
+                        dis, last = churn_check(case0)
+                        case = dict(case0, part='churn')
+                        for kind, exp, obs, detail in dis:
+                            acc.violation(kind, case, exp, obs, detail,
+                                          size=n * 1000 +
+                                          len(core.canon(case)))
+                        # non-trivial: the stale entries outnumber the live
+                        acc.case(case, n > len(prios), last,
+                                 steps=len(prios) * 2 + n + 1)
+    return acc.result()
+
+
+# the same through the NRT scheduler: a watchdog re-armed N times before its
+# deadline while five other tasks are pending
+
+WATCHDOG_ORDERS = [[3, 1, 4, 0, 2], [4, 3, 2, 1, 0], [2, 0, 1, 4, 3],
+                   [0, 4, 1, 3, 2], [1, 1, 0, 2, 2]]
+
+
+def watchdog_cases():
+    out = []
+    for C in ('s', 't2', 'a'):
+        for order in WATCHDOG_ORDERS:
+            for spaced in (False, True):
+                for n in CHURN_N:
+                    out.append({'clock': C, 'order': order, 'spaced': spaced,
+                                'n': n})
+    return out
+
+
+def watchdog_prog(case):
+    """g0..g4 pending at 20 + order[i] (inserted in that order), the watchdog
+    w armed at +10; the controller re-arms it (sched +10) N times, all at one
+    instant or 1/32 apart (always before the deadline), and stops: w comes
+    out once, 10 after the last re-arming, then g0..g4 by (time, insertion)."""
+    C = case['clock']
+    k = [['yield', 0.5]]
+    for _ in range(case['n']):
+        k.append(['sched', C, 10.0, 'w'])
+        if case['spaced']:
+            k.append(['yield', 0.03125])
+    once = {'returns': [None], 'kind': 'awakeable'}
+    funcs = {f'g{i}': once for i in range(5)}
+    funcs['w'] = once
+    main = [['sched', C, 20.0 + t, f'g{i}']
+            for i, t in enumerate(case['order'])]
+    main += [['sched', C, 10.0, 'w'], ['play', 'k', C, 0]]
+    return {'clocks': {'s': NS_SPEC['s'], C: NS_SPEC[C]}, 'funcs': funcs,
+            'routines': {'k': k}, 'actors': {'main': main}, 'horizon': 64.0}
+
+
+def watchdog_check(case):
+    from mc.oracles import timeq_ref
+    prog = watchdog_prog(case)
+    exp, flags, _ = timeq_ref.clockq_expected(prog, 'nrt')
+    if flags:
+        raise core.HarnessError(f'watchdog program undecided: {flags}')
+    # the controller's own awakenings are not the subject (and are many)
+    exp = [e for e in exp if e[0] != 'k']
+    got = [e for e in _awakenings(_run_nrt9(prog)) if e[0] != 'k']
+    dis = []
+    if got != exp:
+        dis.append(_classify('nrt-watchdog', exp, got))
+    return dis, got
+
+
+def watchdog_work(job):
+    from mc.engines import progenum
+    acc = progenum.Acc(max_samples=2)
+    for i, case0 in enumerate(watchdog_cases()):
+        if i % job['of'] != job['shard']:
+            continue
+        dis, got = watchdog_check(case0)
+        case = dict(case0, part='watchdog')
+        for kind, exp, obs, detail in dis:
+            acc.violation(kind, case, exp, obs, detail,
+                          size=case0['n'] * 1000 + len(core.canon(case)))
+        acc.case(case, case0['n'] > 7, got, steps=case0['n'] + 7)
+    return acc.result()
+
+
 def REPLAY_MODE(v):
     case = v['case']
     if case.get('part') == 'clock':
@@ -1207,6 +1388,10 @@ def _hist_replay(job):
         return pack(dis, got)
     if part == 'sched':
         return pack(*sched_check(case))
+    if part == 'churn':
+        return pack(*churn_check(case))
+    if part == 'watchdog':
+        return pack(*watchdog_check(case))
     if part == 'ppar':
         return pack(*ppar_check(case['node']))
     if part == 'exit':
@@ -1231,7 +1416,10 @@ def main(ctx):
                 'count). Non-trivial = history contains a priority tie, a '
                 're-add of a present task or a removal. Priority alphabets '
                 '{0,1,2} and {-inf,-1,0.5} (falsy tasks "" and 0), +inf in '
-                'the fill-disturb-drain family (5-6 live entries). NRT clock '
+                'the fill-disturb-drain family (5-6 live entries); long '
+                'histories (up to 200 re-insertions of one or two entries '
+                'among 3-6 live ones, stale entries far outnumbering them) '
+                'on the queue itself and through the NRT scheduler. NRT clock '
                 'tasks (E1): '
                 'every controller program re-scheduling a function task and '
                 'a routine that are pending / already awakened, on SystemClock'
@@ -1314,6 +1502,24 @@ def main(ctx):
                            (', tempo/beats change with 3 pending entries, '
                             'main.reset()' if mode == 'nrt' else
                             ' on the real-time clocks, default schedule') + sl)
+    jobs = [{'shard': i, 'of': 32} for i in range(32)]
+    if quick:
+        for j in jobs:
+            j.update(slice_of=8, slice_ix=core.pick_slice(ctx.seed, 8))
+    progenum.run(ctx, MODNAME, 'churn_work', jobs, mode='nrt',
+                 bound='TaskQueue long histories: fill k=3..6 entries (every '
+                       'insertion order of 0..k-1, and of {0,1,1,2}' +
+                       ('; k>=5: 1/8 of the orders chosen by the seed'
+                        if quick else '') + '), re-add / remove+add the '
+                       'first / last / smallest / first and last entry N '
+                       'times to a later / earlier / equal / the same '
+                       f'priority, N in {CHURN_N}, drain')
+    jobs = [{'shard': i, 'of': 16} for i in range(16)]
+    progenum.run(ctx, MODNAME, 'watchdog_work', jobs, mode='nrt',
+                 bound='NRT scheduler long histories: a watchdog re-armed N '
+                       f'times (N in {CHURN_N}; in one instant / 1/32 apart) '
+                       'with 5 other tasks pending in 5 insertion orders, on '
+                       '3 clocks')
     jobs = [{'shard': i, 'of': 16} for i in range(16)]
     progenum.run(ctx, MODNAME, 'sched_work', jobs, mode='nrt',
                  bound='Scheduler(AppClock, drift=False) driven directly: '
